@@ -691,7 +691,7 @@ mod v_socket_icmp {
     // quoted UDP length field normally exceeds the 8 quoted bytes.  A socket bound to the UDP port the
     // datagram was sent from must accept such an error ("each valid datagram arriving for a bound socket is
     // delivered").
-    // @harness props=C09 cfg=KI4 tier=q to=600 mem=8 unwind=6 opts=nomem covers=1 funcs=icmp::Socket::accepts_v4;UdpRepr::parse;UdpPacket::check_len bounds=socket_bound_to_Udp(any_port);_DstUnreachable_quoting_the_first_8_bytes_of_a_UDP_datagram_of_any_length_8..=65535
+    // @harness props=C09 kind=finding cfg=KI4 tier=q to=600 mem=8 unwind=6 opts=nomem covers=1 funcs=icmp::Socket::accepts_v4;UdpRepr::parse;UdpPacket::check_len bounds=socket_bound_to_Udp(any_port);_DstUnreachable_quoting_the_first_8_bytes_of_a_UDP_datagram_of_any_length_8..=65535
     #[kani::proof]
     pub(crate) fn icmp_accepts_truncated_quote() {
         env!(dev, iface, cx);
